@@ -52,6 +52,7 @@ struct vm_env {
 	unsigned (*zipf)(double, unsigned);
 	int (*range)(int, int);
 	void (*stop)(void);
+	uint64_t (*rng_hash)(void); /* hash of the calling LP's generator state */
 	/* observation: called at the end of every non-ignored, non-silent delivery with the post-state hash */
 	void (*on_event)(uint64_t me, double now, unsigned type, const void *pl, unsigned size, uint64_t h_after, bool pred);
 	void (*on_init)(uint64_t me, uint64_t h_after, bool pred);
@@ -66,6 +67,7 @@ void vm_process_event(uint64_t me, double now, unsigned type, const void *pl, un
 bool vm_can_end(uint64_t me, const void *st);
 uint64_t vm_payload_hash(const void *pl, unsigned size);
 uint64_t vm_state_digest(const struct vm_state *s);
+uint64_t vm_full_digest(const struct vm_state *s); /* state digest + the LP's generator state */
 
 static inline uint64_t vm_mix(uint64_t h, uint64_t x)
 {
